@@ -1090,10 +1090,14 @@ static _Bool kind_unsigned(void) { return g_num.kind == VT_UINT32 || g_num.kind 
     COVER(g_num.kind == VT_UINT64 && want == EQUAL); COVER(g_num.kind == VT_FLOAT && want == LESS); E2E_CANARY(want) \
     CHECK(COMPARE_NAME(T)(v, &rhs) == want, "compare<" #T ">(variant, x): values as doubles; null/unbound DIFFER"); } while (0)
 
-void h_e2e_numeric(void) {
-  /* the combination "unsigned storage kind vs int8/int16/int32" is the known F11 group: own obligation below */
+/* the combination "unsigned storage kind vs int8/int16/int32" is the known F11 group: own obligation below */
+void h_e2e_narrow_signed(void) {
   E2E_INT(schar, !kind_unsigned(), COV_OTHER); E2E_INT(short, !kind_unsigned(), COV_OTHER); E2E_INT(int, !kind_unsigned(), COV_OTHER);
+}
+void h_e2e_unsigned_and_wide(void) {
   E2E_INT(uchar, 1, COV_ALL); E2E_INT(ushort, 1, COV_ALL); E2E_INT(uint, 1, COV_ALL); E2E_INT(long, 1, COV_ALL); E2E_INT(ulong, 1, COV_ALL);
+}
+void h_e2e_floating(void) {
   E2E_FLT(float); E2E_FLT(double);
 }
 /* F11 as the user sees it: a variant holding an unsigned number (e.g. a parsed 5) against a negative int */
